@@ -51,7 +51,17 @@ CHECKS["C17"] = {
     "design_ref": "4.3",
 }
 
+CHECKS["C11"] = {
+    "engine": "register-refinement",
+    "level": "exploration",
+    "text": "Seeded operation histories (1..40 register / bit-field / enum writes with boundary values 0, 1, 2^w-1, 2^w, 2^w+1, negative, in int / hex / dec / bin forms; resets; export->parse into a twin; get_config->load_yml_config into a fresh twin; 16 read-only queries) on generated register layouts (widths 8..512, partitioning bit-fields with hidden gaps, enums, shift-right config processors, grouped registers with normal and reversed sub-register order, reversed byte order on groups, both endiannesses) checked step by step against a bit-vector reference model, with a structural snapshot around every query. This is the history / refinement half of the technique only: the code has no clock, I/O, entropy or thread, so the fault set is empty and the evidence says so.",
+    "note": "Trusted: the reference model and layout generator in /verif/c11 (layouts follow the real specifications: bit-fields partition the register, 'reversed' on groups only, shifted fields and group sub-registers carry no reset value; alternative widths are not value-predicted).",
+    "technique": "deterministic seeded history search with step-by-step refinement against an executable reference model (simulation family, empty fault set), shrinking and replay",
+    "design_ref": "4.4",
+}
+
 ENGINES = [
+    {"name": "register-refinement", "path": "c11/", "serves_properties": ["C11"], "kind_free_text": "seeded operation histories vs bit-vector reference model"},
     {"name": "entropy-history-sim", "path": "c17/", "serves_properties": ["C17"], "kind_free_text": "fork-per-epoch simulator with injective entropy and simulated wall clock"},
     {"name": "bootlink-sim", "path": "c10/", "serves_properties": ["C10"], "kind_free_text": "host/device co-simulation over a simulated UART / USB-HID link with discrete-event time"},
     {"name": "dbcache-sim", "path": "c18/", "serves_properties": ["C18"], "kind_free_text": "fork-zygote process simulator with OS-interface interposition and a seeded scheduler"},
